@@ -27,8 +27,8 @@ from secsgem.secs import variables as V  # noqa: E402
 
 logging.disable(logging.CRITICAL)
 
-BOUND = 12.0  # seconds allowed to reach COMMUNICATING (timers: T3 = T6 = 1 s, establish-communication delay = 1 s)
-CALL_BOUND = 6.0
+BOUND = 40.0  # seconds allowed to reach COMMUNICATING (timers: T3 = T6 = 5 s so that machine load cannot trip them, establish-communication delay = 1 s)
+CALL_BOUND = 20.0
 
 
 class Equip(secsgem.gem.GemEquipmentHandler):
@@ -87,7 +87,7 @@ class Equip(secsgem.gem.GemEquipmentHandler):
         self.ecv[ec.ecid] = value
 
 
-def make_pair(host_active: bool, seg, delays, device_id=0):
+def make_pair(host_active: bool, seg, delays, device_id=0, t3=5):
     mk = secsgem.hsms.HsmsConnectMode
 
     class HS(secsgem.hsms.HsmsSettings):
@@ -101,9 +101,9 @@ def make_pair(host_active: bool, seg, delays, device_id=0):
             return self.conn
 
     hs = HS(connect_mode=mk.ACTIVE if host_active else mk.PASSIVE, device_type=secsgem.common.DeviceType.HOST,
-            t3=1, t6=1, establish_communication_timeout=1, device_id=device_id)
+            t3=t3, t6=5, establish_communication_timeout=1, device_id=device_id)
     es = ES(connect_mode=mk.PASSIVE if host_active else mk.ACTIVE, device_type=secsgem.common.DeviceType.EQUIPMENT,
-            t3=1, t6=1, establish_communication_timeout=1, device_id=device_id)
+            t3=t3, t6=5, establish_communication_timeout=1, device_id=device_id)
     host = secsgem.gem.GemHostHandler(hs)
     eq = Equip(es)
     hc, ec = host.protocol._connection, eq.protocol._connection
@@ -471,7 +471,7 @@ def scenario(res, rng, drv_lines, host_active, eq_first, seg, delays, n_calls, c
         racer = host if rng.chance(1, 2) else eq
         racer._wait_event_list = SlowList(racer, BOUND)
         race_out = {}
-        rt = threading.Thread(target=lambda: race_out.setdefault("v", racer.waitfor_communicating(4)), daemon=True)
+        rt = threading.Thread(target=lambda: race_out.setdefault("v", racer.waitfor_communicating(BOUND)), daemon=True)
         first.enable()
         time.sleep(rng.choice([0.0, 0.01, 0.2]))
         second.enable()
@@ -479,7 +479,7 @@ def scenario(res, rng, drv_lines, host_active, eq_first, seg, delays, n_calls, c
         ok, dt = wait_both(host, eq, BOUND)
         rt.join(BOUND)
         if ok and race_out.get("v") is not True:
-            res.violate("c20-waitfor-lost-wakeup", "waitfor_communicating(4) returned False / did not return although the handler reached COMMUNICATING while it was registering",
+            res.violate("c20-waitfor-lost-wakeup", "waitfor_communicating(bound) returned False / did not return although the handler reached COMMUNICATING while it was registering",
                         case, True, race_out.get("v"))
         # the 32-bit system-bytes counters wrap during the service calls in some scenarios (system bytes 0xFFFFFFFF, 0, 1 are ordinary values)
         for h, tag in ((host, "host"), (eq, "equipment")):
@@ -497,19 +497,19 @@ def scenario(res, rng, drv_lines, host_active, eq_first, seg, delays, n_calls, c
         for c in range(cycles):
             who = rng.choice(["host", "equipment"])
             h = host if who == "host" else eq
-            st, _ = bounded(h.disable, 10)
+            st, _ = bounded(h.disable, 30)
             if st != "ok":
-                res.violate("c20-disable-hang", f"{who}.disable() did not return within 10 s ({st})", dict(case, cycle=c))
+                res.violate("c20-disable-hang", f"{who}.disable() did not return within 30 s ({st})", dict(case, cycle=c))
                 return
             time.sleep(rng.choice([0.0, 0.05, 0.3]))
             other = eq if who == "host" else host
             # the side that stayed enabled must have left COMMUNICATING
-            t_end = time.time() + 3
+            t_end = time.time() + 20
             while time.time() < t_end and other.communication_state.current == CommunicationState.COMMUNICATING:
                 time.sleep(0.01)
             if other.communication_state.current == CommunicationState.COMMUNICATING:
                 res.violate("c20-stale-communicating", f"after {who} was disabled the other side still reports COMMUNICATING", dict(case, cycle=c))
-            st, _ = bounded(h.enable, 10)
+            st, _ = bounded(h.enable, 30)
             ok, dt = wait_both(host, eq, BOUND)
             res.count(("cycle", scen, c, who), sample={"scenario": scen, "cycle": c, "who": who, "communicating": ok, "seconds": round(dt, 3)})
             res.bump("c20_reconvergence_s", int(dt))
@@ -537,7 +537,7 @@ def scenario_disable_mid_establish(res, rng, host_active, who_gem, state_wanted,
     """One side's GEM layer is not up yet (only its HSMS protocol is enabled: the link gets selected, an S1F13 is never answered).  The other
     side is then somewhere in WAIT_CRA / WAIT_DELAY; disabling it there must work (no exception, DISABLED), and after both sides are enabled
     properly the pair must reach communication."""
-    host, eq, hc, ec = make_pair(host_active, [1 << 30], [0.0])
+    host, eq, hc, ec = make_pair(host_active, [1 << 30], [0.0], t3=1)
     stop = threading.Event()
     threading.Thread(target=pairlib.retry_loop, args=(hc, ec, stop), daemon=True).start()
     gem, bare = (host, eq) if who_gem == "host" else (eq, host)
@@ -546,21 +546,21 @@ def scenario_disable_mid_establish(res, rng, host_active, who_gem, state_wanted,
     try:
         bare.protocol.enable()
         gem.enable()
-        t_end = time.time() + 6
+        t_end = time.time() + 20
         while time.time() < t_end and gem.communication_state.current != want:
             time.sleep(0.005)
         reached = gem.communication_state.current == want
         res.count(("mid-establish", scen), nontrivial=reached, sample={"scenario": scen, "reached": gem.communication_state.current.name})
         res.bump("c20_disable_in", gem.communication_state.current.name)
-        st, err = bounded(gem.disable, 8)
+        st, err = bounded(gem.disable, 30)
         cur = gem.communication_state.current
         if st != "ok" or cur != CommunicationState.DISABLED:
             res.violate("c20-disable-mid-establish", f"disable() while the handler was in {want.name} (peer never answered the S1F13): {st}"
                         f"{'' if err is None else ' ' + hlib.errkind(err)}, state afterwards {cur.name}", case, "returns, DISABLED", (st, cur.name))
-        bounded(bare.protocol.disable, 8)
+        bounded(bare.protocol.disable, 30)
         time.sleep(0.05)
-        st1, _ = bounded(gem.enable, 8)
-        st2, _ = bounded(bare.enable, 8)
+        st1, _ = bounded(gem.enable, 30)
+        st2, _ = bounded(bare.enable, 30)
         ok, dt = wait_both(host, eq, BOUND)
         if st1 != "ok" or st2 != "ok" or not ok:
             res.violate("c20-no-reconvergence", f"after a disable in {want.name} and a proper enable of both sides the pair did not reach COMMUNICATING within {BOUND} s",
